@@ -190,9 +190,38 @@ class C04(Spec):
                 h.append("ures %d %d %d" % (uid, nxt, rng.choice([4, 6, 8]))); nxt += 1
         return h
 
+    def gen_far_apart(self, rng, tier):
+        """precisions 8 and more levels apart (any fold count kept in a narrow integer wraps at 2^8): an HLL-mode source far larger
+        than lg_max_k, and a gadget in HLL mode shrunk by a far smaller HLL-mode input, every type, both presentation orders"""
+        big = rng.choice([12, 13] if tier == "quick" else [12, 13, 14, 16])
+        small = rng.choice([4, 5]) if big <= 13 else rng.choice([4, 5, 6, 8])
+        small = min(small, big - 8)
+        tb, ts = rng.choice([4, 6, 8, 8]), rng.choice([4, 6, 8])
+        h = ["new 0 %d %d %d" % (big, tb, rng.randrange(2)), "new 1 %d %d %d" % (small, ts, rng.randrange(2))]
+        nb = rng.choice([(1 << big) // 4, 1 << big, 3000])
+        base = rng.randrange(1 << 40)
+        for i in range(min(nb, 2500 if tier == "quick" else 12000)):
+            h.append("upd 0 u64 %d" % (base + i))
+        for i in range(rng.choice([40, 200, 5 << small])):
+            h.append("upd 1 u64 %d" % (base + 10 ** 7 + i))
+        h += ["obs 0", "obs 1"]
+        nxt = 100
+        for uid, (lgm, order) in enumerate([(small, [0]), (small, [0, 1]), (big, [0, 1]), (big, [1, 0]), (rng.choice([small, small + 1]), [1, 0])], 50):
+            h.append("unew %d %d" % (uid, lgm))
+            for s_ in order:
+                h.append("umerge %d %d %d" % (uid, s_, 0))
+                if rng.random() < 0.3:
+                    h.append("uest %d est" % uid)
+            for _ in range(rng.choice([0, 3])):
+                h.append("upd %d u64 %d" % (uid, rng.randrange(1 << 30)))
+            for tt in (4, 6, 8):
+                h.append("ures %d %d %d" % (uid, nxt, tt)); nxt += 1
+        return h
+
     def generate(self, rng, tier):
         n = 260 if tier == "quick" else 1800
         hs = [self.gen_history(rng, tier) for _ in range(n)]
+        hs += [self.gen_far_apart(rng, tier) for _ in range(6 if tier == "quick" else 40)]
         hs.append(["unew 0 3", "unew 1 22", "unew 2 4", "ures 2 3 4", "uest 2 est", "ureset 2", "ures 2 4 8"])
         return hs
 
